@@ -25,10 +25,10 @@ func init() {
 }
 
 type c03Entry struct {
-	name      string
-	normUTF8  bool
-	newline   bool
-	run       func(x interface{}) ([]byte, error)
+	name     string
+	normUTF8 bool
+	newline  bool
+	run      func(x interface{}) ([]byte, error)
 }
 
 func c03Entries() []c03Entry {
